@@ -26,6 +26,12 @@ pub struct C15;
 const MARK: &str = "\u{1}K:";
 
 fn num_text(r: &mut Rng, dec: &str) -> String {
+    if r.chance(1, 12) {
+        // just below a power of ten: rounding to the printed digits carries into a new leading digit
+        let nines = "9".repeat(1 + r.usize(4));
+        let frac = format!("{}{}", "9".repeat(r.usize(5)), 5 + r.below(5));
+        return format!("{}{}{}{}", if r.chance(1, 5) { "-" } else { "" }, nines, dec, frac);
+    }
     match r.below(7) {
         0 => format!("{}", r.below(1000)),
         1 => format!("{}{}{}", r.below(100000), dec, r.below(1000)),
